@@ -95,6 +95,17 @@ Proof. exact documented_mutators_pf. Qed.
 Goal True. idtac "ASSUMPTIONS documented_mutators". Abort.
 Print Assumptions documented_mutators.
 
+(* tensors outside the differentiated graph: backward reaches other tensors only through `_children` (the IR of
+   Tensor.backward: every node variable flows from `self` through `._children`), and the constructor stores children
+   only for results that require grad (generated flag, from the AST of Tensor.__init__).  Hence the walk stops at every
+   constant computed under no_grad() or from non-requiring operands: the leaves and retained intermediates behind such
+   a constant are never zeroed, never written (their `.grad` stays None / keeps its bytes).  (That wrappers pass
+   exactly their operands as children is Props/Wrappers.v.) *)
+Theorem backward_confined_to_tracked_graph : untracked_results_keep_no_children = true.
+Proof. exact backward_confined_to_tracked_graph_pf. Qed.
+Goal True. idtac "ASSUMPTIONS backward_confined_to_tracked_graph". Abort.
+Print Assumptions backward_confined_to_tracked_graph.
+
 (* ---- non-vacuity ------------------------------------------------------------------------------------------ *)
 Example program_covers_named_kernels :
   forallb (fun n => match find_fun program n with Some _ => true | None => false end)
